@@ -92,6 +92,22 @@ int main(int argc, char** argv){
     }else if (!strcmp(integ, "trace")){
         r->integrator = REB_INTEGRATOR_TRACE; r->ri_trace.peri_mode = o1;
     }else return 2;
+    if (!strcmp(argv[5], "remove")){
+        /* safe_mode 0: two steps, synchronize, remove the particle with index 2, two steps, synchronize:
+           the internal coordinates must be recomputed (from_inertial) after the removal */
+        struct reb_particle q = {0};
+        q.m = 3e-4; q.x = 3.9; q.vy = 0.5; reb_simulation_add(r, q);
+        if (!strcmp(integ, "whfast")) r->ri_whfast.safe_mode = 0;
+        if (!strcmp(integ, "saba")) r->ri_saba.safe_mode = 0;
+        reb_simulation_step(r); reb_simulation_step(r);
+        reb_simulation_synchronize(r);
+        reb_simulation_remove_particle(r, 2, 1);
+        reb_simulation_step(r); reb_simulation_step(r);
+        reb_simulation_synchronize(r);
+        fprintf(stderr, "STATE %.17g %.17g %.17g\n", r->particles[1].x, r->particles[1].y, r->t);
+        reb_simulation_free(r);
+        return 0;
+    }
     if (!strcmp(argv[5], "recalc")){
         /* safe_mode 0; the recalculate-coordinates flag is raised three times while unsynchronized: WHFast must synchronize each time */
         if (!strcmp(integ, "whfast")) r->ri_whfast.safe_mode = 0;
